@@ -1,6 +1,12 @@
 import CCT.Model.Construct
+import CCT.Lemmas.TimeFmt
 import CCT.Props.C13
-/-! # C16 — metadata constructors (theorems; more below) -/
+/-!
+# C16 — metadata constructors emit only well-formed, faithful metadata
+
+Model: `CCT/Model/Construct.lean` (`metadata_construction.py:36-164`, `common.py:902-918`).  The wall clock is a parameter (two readings);
+the theorems about defaults assume valid readings whose expiry year is representable (≤ 9999; a clock in the year 9999 makes `datetime` overflow).
+-/
 namespace CCT.C16
 open CCT CCT.C15
 open Classical
@@ -34,5 +40,101 @@ theorem build_err_is_argerror (now1 now2 : DateTime) (ty : PyVal) (dels : Option
     (h : buildDelegatingMd now1 now2 ty dels ver ts exp = .error e) : e = .arg := by
   rcases build_outcomes now1 now2 ty dels ver ts exp with ⟨v, hv⟩ | hv <;> rw [hv] at h <;> cases h
   rfl
+
+theorem liftJ_ok {f : J → Res Unit} {v : PyVal} (h : liftJ f v = .ok ()) : ∃ x, v = .j x ∧ f x = .ok () := by
+  cases v <;> first | exact ⟨_, rfl, h⟩ | cases h
+
+/-- what a successful call returns: the six fields, carrying the arguments verbatim and the library's specification version, and every
+argument check passed -/
+theorem build_ok_fields (now1 now2 : DateTime) (ty : PyVal) (dels : Option PyVal) (ver : PyVal) (ts exp : Option PyVal) (md : J)
+    (h : buildDelegatingMd now1 now2 ty dels ver ts exp = .ok md) :
+    ∃ t v tsv ex d, ty = .j t ∧ ver = .j v ∧ ts.getD (.j (.str (isoNowPlusDays now1 0))) = .j tsv ∧
+      exp.getD (.j (.str (isoNowPlusDays now2 365))) = .j ex ∧ dels.getD (.j (.obj [])) = .j d ∧
+      md = .obj [(ps! "type", t), (ps! "version", v), (ps! "metadata_spec_version", .str specVersion),
+                 (ps! "timestamp", tsv), (ps! "expiration", ex), (ps! "delegations", d)] ∧
+      checkStringJ t = .ok () ∧ checkUtcJ tsv = .ok () ∧ checkUtcJ ex = .ok () ∧ checkNaturalIntJ v = .ok () ∧ checkDelegationsJ d = .ok () := by
+  unfold buildDelegatingMd at h
+  simp only [bind, Except.bind] at h
+  cases h1 : liftJ checkStringJ ty with
+  | error e => rw [h1] at h; cases h
+  | ok _ =>
+  rw [h1] at h; simp only at h
+  cases h2 : liftJ checkUtcJ (ts.getD (.j (.str (isoNowPlusDays now1 0)))) with
+  | error e => rw [h2] at h; cases h
+  | ok _ =>
+  rw [h2] at h; simp only at h
+  cases h3 : liftJ checkUtcJ (exp.getD (.j (.str (isoNowPlusDays now2 365)))) with
+  | error e => rw [h3] at h; cases h
+  | ok _ =>
+  rw [h3] at h; simp only at h
+  cases h4 : liftJ checkNaturalIntJ ver with
+  | error e => rw [h4] at h; cases h
+  | ok _ =>
+  rw [h4] at h; simp only at h
+  cases h5 : liftJ checkDelegationsJ (dels.getD (.j (.obj []))) with
+  | error e => rw [h5] at h; cases h
+  | ok _ =>
+  rw [h5] at h; simp only at h
+  obtain ⟨t, rfl, c1⟩ := liftJ_ok h1
+  obtain ⟨tsv, e2, c2⟩ := liftJ_ok h2
+  obtain ⟨ex, e3, c3⟩ := liftJ_ok h3
+  obtain ⟨v, rfl, c4⟩ := liftJ_ok h4
+  obtain ⟨d, e5, c5⟩ := liftJ_ok h5
+  rw [e2, e3, e5] at h
+  simp only [pure, Except.pure, Except.ok.injEq] at h
+  exact ⟨t, v, tsv, ex, d, rfl, rfl, e2, e3, e5, h.symm, c1, c2, c3, c4, c5⟩
+
+/-- the value wrapped as an envelope (no signatures yet) -/
+def wrapped (md : J) : J := .obj [(ps! "signatures", .obj []), (ps! "signed", md)]
+
+/-- **whatever is returned, once wrapped, passes the delegating-metadata checker** (for the supported types) and carries type, version,
+timestamps and delegations verbatim plus the library's specification version -/
+theorem build_ok_wellformed (now1 now2 : DateTime) (ty : PyVal) (dels : Option PyVal) (ver : PyVal) (ts exp : Option PyVal) (md : J)
+    (h : buildDelegatingMd now1 now2 ty dels ver ts exp = .ok md) (tys : PStr) (hty : ty = .j (.str tys)) (hs : tys ∈ supportedDelegatingTypes) :
+    checkDelegatingMdJ (wrapped md) = .ok () := by
+  obtain ⟨t, v, tsv, ex, d, e1, _, _, _, _, hmd, _, c2, c3, c4, c5⟩ := build_ok_fields now1 now2 ty dels ver ts exp md h
+  rw [hty] at e1; cases e1
+  rw [(C14.checker_iff_schema _)]
+  have hp : EnvParts (wrapped md) [] md :=
+    ⟨by simp [wrapped, isSignableJ, keysetEq, dictKeys, dictGet], _, rfl, by simp [dictGet], by simp [dictGet]⟩
+  refine ⟨[], md, hp, by simp, ?_⟩
+  subst hmd
+  refine ⟨_, rfl, ⟨tys, by simp [dictGet], hs⟩, ⟨specVersion, by simp [dictGet]⟩, ⟨d, by simp [dictGet], (C14.delegations_iff d).mp c5⟩,
+    ⟨ex, by simp [dictGet], (C14.utc_iff ex).mp c3⟩, Or.inl (by simp [dictHas, dictGet]), (fun _ => by simp [dictHas, dictGet]), ?_, ?_⟩
+  · intro t ht; simp [dictGet] at ht; subst ht; exact (C14.utc_iff _).mp c2
+  · intro v' hv; simp [dictGet] at hv; subst hv; exact (C14.naturalInt_iff _).mp c4
+
+/-- **the default timestamp and expiration are well-formed UTC strings, and the metadata expires strictly after its timestamp, one year
+of days later**: with clock readings `now1 ≤ now2` (dates) the expiration date is later than the timestamp date -/
+theorem default_times (now1 now2 : DateTime) (h1 : now1.valid = true) (h2 : now2.valid = true) (hy : (addDays 365 now2).year ≤ 9999) :
+    checkUtcJ (.str (isoNowPlusDays now1 0)) = .ok () ∧ checkUtcJ (.str (isoNowPlusDays now2 365)) = .ok () ∧
+    pyStrptimeUtc (isoNowPlusDays now1 0) = some now1 ∧ pyStrptimeUtc (isoNowPlusDays now2 365) = some (addDays 365 now2) ∧
+    dateLt now2 (addDays 365 now2) := by
+  have hv := addDays_valid' 365 now2 h2 hy
+  have p1 := strptime_isoZ now1 h1
+  have p2 := strptime_isoZ (addDays 365 now2) hv
+  refine ⟨?_, ?_, p1, p2, (addDays_later 364 now2).1⟩
+  · simp [checkUtcJ, isoNowPlusDays, addDays, p1, okU]
+  · simp [checkUtcJ, isoNowPlusDays, p2, okU]
+
+/-- **root metadata built by the wrapper always delegates both `root` and `key_mgr`** with the given keys and thresholds -/
+theorem buildRoot_delegates_both (now0 now1 : DateTime) (ver rk rt kk kt : J) (ts exp : Option PyVal) (md : J)
+    (h : buildRootMd now0 now1 (.j ver) (.j rk) (.j rt) (.j kk) (.j kt) ts exp = .ok md) :
+    ∃ rest, md = .obj rest ∧ dictGet (ps! "type") rest = some (.str (ps! "root")) ∧
+      dictGet (ps! "delegations") rest = some (.obj [(ps! "root", .obj [(ps! "pubkeys", rk), (ps! "threshold", rt)]),
+                                                      (ps! "key_mgr", .obj [(ps! "pubkeys", kk), (ps! "threshold", kt)])]) := by
+  unfold buildRootMd at h
+  simp only at h
+  obtain ⟨t, v, tsv, ex, d, e1, _, _, _, e5, hmd, _⟩ := build_ok_fields _ _ _ _ _ _ _ _ h
+  cases e1
+  simp only [Option.getD_some] at e5
+  cases e5
+  exact ⟨_, hmd, by simp [dictGet], by simp [dictGet]⟩
+
+/-- … and is itself accepted by the checker as root metadata -/
+theorem buildRoot_wellformed (now0 now1 : DateTime) (ver rk rt kk kt : J) (ts exp : Option PyVal) (md : J)
+    (h : buildRootMd now0 now1 (.j ver) (.j rk) (.j rt) (.j kk) (.j kt) ts exp = .ok md) : checkDelegatingMdJ (wrapped md) = .ok () := by
+  unfold buildRootMd at h
+  exact build_ok_wellformed _ _ _ _ _ _ _ md h (ps! "root") rfl (by decide)
 
 end CCT.C16
